@@ -244,6 +244,32 @@ func enumerate(creds []credEntry) (main, side []tcase) {
 			}
 		}
 	}
+	// error code x error_message of framed refusals: every code x {null, empty, text} at the
+	// SaslAuthenticate steps (handshake v1), every code at ApiVersions and SaslHandshake
+	// (those responses have no message field), both paths, every mechanism
+	codes := []int{0, 58, 33, 34, 35, 1, -1, 128, 255, 32767, -32768}
+	for _, path := range []string{"d", "t"} {
+		for _, mech := range []string{"plain", "s256", "s512"} {
+			for _, code := range codes {
+				for step := 2; step < 2+nsteps(mech); step++ {
+					for _, mode := range []string{"null", "empty", "text"} {
+						side = append(side, tcase{path: path, mech: mech, hs: 1, au: 1, cred: "right", fstep: step,
+							fkind: fmt.Sprintf("%s%s:%s", saslfake.FErrPrefix, kvfmt.I(int64(code)), mode)})
+					}
+				}
+				for step := 0; step < 2; step++ {
+					for _, hs := range []int{0, 1} {
+						au := saslfake.Absent
+						if hs == 1 {
+							au = 1
+						}
+						side = append(side, tcase{path: path, mech: mech, hs: hs, au: au, cred: "right", fstep: step,
+							fkind: fmt.Sprintf("%s%s:-", saslfake.FErrPrefix, kvfmt.I(int64(code)))})
+					}
+				}
+			}
+		}
+	}
 	// the raw (handshake v0) response read: every class of length prefix x 0..3 payload
 	// bytes x {close, silence until the read deadline} x both paths, at each raw step.
 	// PLAIN accepts any payload, so for PLAIN a prefix smaller than the payload (trailing
@@ -369,7 +395,9 @@ func runCase(c tcase, creds []credEntry, seed int64) outcome {
 	ce := creds[c.credidx]
 	var o outcome
 	o.feats = append(o.feats, "path="+c.path, "mech="+c.mech, "hs="+verS(c.hs), "auth="+verS(c.au), "cred="+c.cred)
-	if c.fstep >= 0 {
+	if code, mode, ok := saslfake.ParseErrKind(c.fkind); ok {
+		o.feats = append(o.feats, "fault=errcode", "fstep="+stepS(c.fstep), "code="+strconv.Itoa(int(code)), "msg="+mode)
+	} else if c.fstep >= 0 {
 		o.feats = append(o.feats, "fault="+c.fkind, "fstep="+stepS(c.fstep))
 	} else {
 		o.feats = append(o.feats, "fault=none")
